@@ -78,9 +78,46 @@ def z3bool(v):
     raise OutsideSubset('expected bool, got %r' % (v,))
 
 
+def _flat(t, out):
+    if z3.is_app(t) and t.decl().kind() == z3.Z3_OP_SEQ_CONCAT:
+        for c in t.children():
+            _flat(c, out)
+    else:
+        out.append(t)
+
+
+def canon_str(t):
+    """canonical form of a string term: a flat concatenation with adjacent
+    literals merged (so that equal strings built in different ways are the
+    same term when they are arguments of uninterpreted functions)"""
+    if not (z3.is_app(t) and t.decl().kind() == z3.Z3_OP_SEQ_CONCAT):
+        return t
+    ps = []
+    _flat(t, ps)
+    merged = []
+    for x in ps:
+        if z3.is_string_value(x):
+            if x.as_string() == '':
+                continue
+            if merged and z3.is_string_value(merged[-1]):
+                a = merged[-1]
+                merged[-1] = z3.StringVal(
+                    (_decode_z3_string(a) if _has_escape(a) else a.as_string()) +
+                    (_decode_z3_string(x) if _has_escape(x) else x.as_string()))
+                continue
+        merged.append(x)
+    if not merged:
+        return z3.StringVal('')
+    if len(merged) == 1:
+        return merged[0]
+    return z3.Concat(*merged)
+
+
 def mk(t):
     """wrap a z3 term into a value, folding literals to Python values."""
     t = z3.simplify(t)
+    if z3.is_string(t):
+        t = canon_str(t)
     if z3.is_bool(t):
         if z3.is_true(t):
             return True
